@@ -128,6 +128,19 @@ var kfScripts = []kfScript{
 			w.Record.SetResource(a)
 			write()
 		}},
+	{"array-copyfrom-grown-unmarked",
+		"Exemplars().EnsureLen(2); At(1).SetTimestamp(9); Write(); Exemplars().EnsureLen(0); Point().CopyFrom(P with 2 zero exemplars); Write()  -- copy<Array> fills the grown part with fresh elements copied by setters that compare against the initial value: nothing in element 1 is marked, the reader keeps timestamp 9", pkg.WriterOptions{},
+		func(w *otelstef.MetricsWriter, write func()) {
+			ex := w.Record.Point().Exemplars()
+			ex.EnsureLen(2)
+			ex.At(1).SetTimestamp(9)
+			write()
+			ex.EnsureLen(0)
+			src := otelstef.NewPoint()
+			src.Exemplars().EnsureLen(2)
+			w.Record.Point().CopyFrom(src)
+			write()
+		}},
 	{"append-orphan-element",
 		"e=NewExemplar{SetTimestamp(5)}; Point().Exemplars().Append(e); Write(); Point().Exemplars().At(0).SetTimestamp(6); Write()  -- Append stores the pointer without linking the element to the array's parent: later changes of the element never mark Point/Exemplars", pkg.WriterOptions{},
 		func(w *otelstef.MetricsWriter, write func()) {
@@ -203,10 +216,13 @@ func runKnownFindings(r *rng.R) {
 				cfg.NegZeroHeavy = true
 			case "reveal-array-twice":
 				cfg.AllowRevealArray = true
+				cfg.ForceRevealArray = true
 			case "reveal-oneof-twice":
 				cfg.AllowRevealOneof = true
+				cfg.ForceRevealOneof = true
 			case "reveal-shared-twice":
 				cfg.AllowRevealShared = true
+				cfg.ForceRevealShared = true
 			case "setter-clone-unlinked":
 				cfg.AllowCloneUnlinked = true
 				cfg.ForceCloneUnlinked = true
